@@ -6,6 +6,7 @@ Agreement of the definitions GENERATED from kit/hash/crc16/crc16.go (`Go.crc16.*
 on every run) with the hand-written model `Fit.Crc.*` that the theorems of C18 and C04 are about — for ALL arguments.
 A change of a Go function body that changes its meaning makes one of these fail at `lake build` time.
 -/
+set_option linter.unusedSimpArgs false  -- spare lemmas keep the proofs stable under harmless rewrites of the source
 namespace Fit.Go2Lean
 open Fit.Crc
 
